@@ -18,7 +18,7 @@ from .projgen import Project, SNIPPETS, C_PRELUDE, CPP_PRELUDE, _fmt
 
 SHAPES_ANY = ['null', 'uninit', 'array', 'chain_null', 'chain_uninit', 'chain_array', 'null_local_proto',
               'null_cond', 'unused', 'used_other', 'used_fptr', 'used_samefile', 'used_macro',
-              'ptrarith', 'null_struct', 'null_maybe', 'null_malloc']
+              'ptrarith', 'null_struct', 'null_maybe', 'null_malloc', 'null_fopen']
 SHAPES_CPP = ['odr', 'odr_same', 'member_null', 'used_template', 'member_unused', 'ns_unused']
 
 
@@ -87,6 +87,15 @@ class Builder:
             B[b] += ('void cocall_%d(void) {\n    int *q = (int*)malloc(sizeof(int));\n    co_%d(q);\n    free(q);\n}\n\n'
                      % (n, n))
             self.aimed.append('ctunullpointerOutOfMemory')
+        elif shape == 'null_fopen':
+            # unknown-function-return value of a *resource* allocator: ctunullpointerOutOfResources
+            a, b = self.pick(2)
+            alloc = r.choice(['fopen("/dev/null", "r")', 'tmpfile()', 'fopen("x.txt", "w")'])
+            self.decl([a, b], 'int cr_%d(FILE *fp);\n' % n)
+            B[a] += 'int cr_%d(FILE *fp) {\n    return fgetc(fp) + %d;\n}\n\n' % (n, r.randint(1, 9))
+            B[b] += ('int crcall_%d(void) {\n    FILE *f = %s;\n    int r = cr_%d(f);\n    fclose(f);\n    return r;\n}\n\n'
+                     % (n, alloc, n))
+            self.aimed.append('ctunullpointerOutOfResources')
         elif shape == 'null_struct':
             a, b = self.pick(2)
             self.protos += 'struct CS_%d { int a; int b; };\nint cs_%d(struct CS_%d *s);\n' % (n, n, n)
